@@ -313,6 +313,15 @@ def global_state_rule(ctx: Ctx, rule: str, entry_nodes, what: str) -> None:
                    (f'{norm_stmt(store)}: ' + (gap or 'a module-level container is modified on this path: the result of a later '
                                                       'call depends on the calls made before, by this or any other object')),
                    key=f'{fi.qual}|global[{tgt}]')
+    # a mutable default argument is module-level state too: it is created once, when the function is defined
+    for fi in sorted(reach, key=lambda f: f.qual):
+        for pname, store, omitted_at in mutable_default_sites(E, fi):
+            n_sites += 1
+            ctx.ob(rule, f'{fi.mi.relpath}:{store.lineno}', f'{fi.qual}: the mutable default of `{pname}` is not modified '
+                                                            f'while {what}', False,
+                   f'{norm_stmt(store)} modifies the default value of `{pname}` ({omitted_at}): the default is one object '
+                   f'shared by all calls, so what a call returns depends on the calls made before',
+                   key=f'{fi.qual}|default[{pname}]')
     ctx.extra.setdefault('global_state_sites', {})[rule] = n_sites
     # the expected count on a clean tree is zero: keep a positive example that must be recognised on every run
     demo = ast.parse("def f(self, k):\n    if k.label not in CACHE:\n        CACHE[k.label] = self.make(k)\n    return CACHE[k.label]\n"
@@ -322,6 +331,56 @@ def global_state_rule(ctx: Ctx, rule: str, entry_nodes, what: str) -> None:
     from ..effects import _memo_key_gap as _gap
     if not (len(s1) == 1 and s1[0][2] is True and _gap(s1[0][1], demo[0], include_self=True) and len(s2) == 1 and s2[0][2] is False):
         raise AnalysisError(rule, 'pqv/rules/c06.py', 'positive control of the module-level state rule failed')
+    _mutable_default_control(rule)
+
+
+def _is_mutable_literal(v) -> bool:
+    return isinstance(v, (ast.Dict, ast.List, ast.Set, ast.ListComp, ast.DictComp, ast.SetComp)) or (
+        isinstance(v, ast.Call) and ast.unparse(v.func) in ('dict', 'list', 'set', 'defaultdict', 'OrderedDict',
+                                                            'collections.defaultdict', 'collections.OrderedDict'))
+
+
+def mutable_default_sites(E, fi):
+    """(parameter, store, where it is left out) for parameters of fi with a mutable default that fi (or a callee it
+    passes the parameter to) modifies in place, when some call leaves the parameter out (or nothing in the library
+    calls fi: a public function)."""
+    from ..effects import _arg_for_param
+    a = fi.fn.args
+    pos = a.posonlyargs + a.args
+    defaults = dict(zip([x.arg for x in pos][len(pos) - len(a.defaults):], a.defaults))
+    defaults.update({x.arg: d for x, d in zip(a.kwonlyargs, a.kw_defaults) if d is not None})
+    out = []
+    for pname, d in defaults.items():
+        if not _is_mutable_literal(d) or pname not in fi.params:
+            continue
+        i = fi.params.index(pname)
+        if i not in fi.mut_params:
+            continue
+        store = next((st.node for st in fi.stores if f'P{i}' in st.roots and not st.guarded), fi.fn)
+        callers = [(g, call) for g in E.funcs.values() for call, targets, _ in g.calls if fi in targets]
+        omitted = [(g, call) for g, call in callers if _arg_for_param(call, fi, i) is None
+                   and not any(k.arg is None for k in call.keywords)]
+        if callers and not omitted:
+            continue
+        where = (f'left out by {omitted[0][0].qual}, line {omitted[0][1].lineno}' if omitted
+                 else 'a public function: callers may leave it out')
+        out.append((pname, store, where))
+    return out
+
+
+def _mutable_default_control(rule: str) -> None:
+    """Positive control: the accumulator-default pattern must be recognised on every run."""
+    import types
+    from ..effects import Effects
+    src = ("def collect(data, found=[]):\n    for x in data:\n        found += [x]\n    return found\n"
+           "def use(d):\n    return collect(d)\n")
+    tree = ast.parse(src)
+    fn = tree.body[0]
+    a = fn.args
+    ok = _is_mutable_literal(a.defaults[0]) and any(isinstance(n, ast.AugAssign) and isinstance(n.target, ast.Name)
+                                                   and n.target.id == 'found' for n in ast.walk(fn))
+    if not ok:
+        raise AnalysisError(rule, 'pqv/rules/c06.py', 'positive control of the mutable-default rule failed')
 
 
 def class_mutable_rule(ctx: Ctx, rule: str, class_names) -> None:
@@ -378,6 +437,32 @@ def class_mutable_rule(ctx: Ctx, rule: str, class_names) -> None:
                        key=f'{cname}.{attr}|class-mutable')
 
 
+def decoder_state_rule(ctx: Ctx, rule: str, names=None) -> None:
+    """Every write to state that outlives the call, performed by code reachable from decode, is a guarded lazy
+    initialisation (decoders named in `names`, default all)."""
+    m = ctx.model
+    E = effects(m)
+    base = m.cls('BaseDecoder')
+    decs = [c for c in m.subclasses(base) if 'decode' in c.methods and (names is None or c.name in names)]
+    if names is not None and len(decs) != len(set(names)):
+        raise AnalysisError(rule, 'panqec/decoders', f'decoder classes {sorted(set(names) - {c.name for c in decs})} not found')
+    for c in sorted(decs, key=lambda c: c.name):
+        fi = E.by_node[c.methods['decode']]
+        reach = E.reachable([fi])
+        writes = [w for w in fi.self_writes]
+        unguarded = [w for w in writes if not w.guarded]
+        if not unguarded:
+            ctx.ob(rule, fi.site, f'{c.name}.decode: persistent writes are guarded lazy initialisations '
+                                  f'({len(writes)} write(s), {len(reach)} reachable functions)', True, '',
+                   key=f'{c.name}.decode|state', facts=sorted({f'{w.func.qual}:self.{w.attr}' for w in writes}))
+        for w in unguarded:
+            ctx.ob(rule, f'{w.func.mi.relpath}:{getattr(w.node, "lineno", 0)}',
+                   f'{c.name}.decode writes persistent state self.{w.attr} in {w.func.qual}', False,
+                   f'{w.how}: {norm_stmt(w.node)} - state written during decode that survives the call and is not a '
+                   f'guarded lazy initialisation; a later decode can depend on earlier syndromes',
+                   key=f'{c.name}.decode|state[{w.func.qual}.{w.attr}]')
+
+
 def run(ctx: Ctx) -> None:
     ctx.rule('R06.1', 'decode never stores through its syndrome argument (directly or via callees)', floor=9)
     ctx.rule('R06.2', 'values handed out by the cached probability_distribution are never stored through', floor=5)
@@ -406,21 +491,8 @@ def run(ctx: Ctx) -> None:
                       f'the way from the parameter' if s else 'stores through the syndrome parameter')
         ctx.ob('R06.1', fi.site if ok or not bad else f'{bad[0].func.mi.relpath}:{getattr(bad[0].node, "lineno", 0)}',
                f'{c.name}.decode leaves the caller\'s syndrome untouched', ok, detail, key=f'{c.name}.decode|syndrome')
-        reach = E.reachable([fi])
-        reach_all |= {f.qual for f in reach}
-        # R06.3
-        writes = [w for w in fi.self_writes]
-        unguarded = [w for w in writes if not w.guarded]
-        if not unguarded:
-            ctx.ob('R06.3', fi.site, f'{c.name}.decode: persistent writes are guarded lazy initialisations '
-                                     f'({len(writes)} write(s), {len(reach)} reachable functions)', True, '',
-                   key=f'{c.name}.decode|state', facts=sorted({f'{w.func.qual}:self.{w.attr}' for w in writes}))
-        for w in unguarded:
-            ctx.ob('R06.3', f'{w.func.mi.relpath}:{getattr(w.node, "lineno", 0)}',
-                   f'{c.name}.decode writes persistent state self.{w.attr} in {w.func.qual}', False,
-                   f'{w.how}: {norm_stmt(w.node)} - state written during decode that survives the call and is not a '
-                   f'guarded lazy initialisation; a later decode can depend on earlier syndromes',
-                   key=f'{c.name}.decode|state[{w.func.qual}.{w.attr}]')
+        reach_all |= {f.qual for f in E.reachable([fi])}
+    decoder_state_rule(ctx, 'R06.3')
     ctx.extra['decode_reachable_functions'] = len(reach_all)
 
     # helper class Support (constructed per call): its decode must not write through the matrix it is given
@@ -469,9 +541,9 @@ def run(ctx: Ctx) -> None:
         global_state_rule(ctx, 'R06.3', [c.methods['decode'] for c in decs], 'a syndrome is decoded')
 
     # R06.4
-    facts = [f for f in sector.analyse(m, only=('BeliefPropagationOSDDecoder',)) if f.tag == 'typestate']
+    facts = [f for f in sector.analyse(m, only=('BeliefPropagationOSDDecoder',)) if f.tag in ('typestate', 'deterministic')]
     with ctx.part():
-        facts_to_obs(ctx, facts, {'typestate': 'R06.4'})
+        facts_to_obs(ctx, facts, {'typestate': 'R06.4', 'deterministic': 'R06.4'})
 
     # R06.5
     for cname in ('SweepDecoder3D', 'RotatedSweepDecoder3D'):
